@@ -6,7 +6,7 @@ from ..strcorpus import STYLES, FIELD_NAMES
 
 DOC_LINES = ['', ' leading space', '  two spaces', '\tTab first', 'no space', ' has "quotes" and \\ backslash', ' {braces} {0}', ' ünï cödé', '   ',
              ' trailing  ', ' line with\\nescaped', ' 日本語', '# heading', ' ']
-KINDS = [('unit', []), ('tuple', ['u8']), ('named', ['i32', 'String']), ('tuple', ['bool', 'u16', 'String'])]
+KINDS = [('unit', []), ('tuple', ['u8']), ('named', ['i32', 'String']), ('tuple', ['bool', 'u16', 'String']), ('tuple', []), ('named', [])]
 
 
 def generate(tier, rng):
@@ -43,7 +43,7 @@ def generate(tier, rng):
                     v.dis = (mode == 'mixed' and (i + k) % 5 == 0 and nvar > 1)
                     e.variants.append(v)
                 if e.generics == 'ty':
-                    tv = [v for v in e.variants if v.kind == 'tuple']
+                    tv = [v for v in e.variants if v.kind == 'tuple' and v.ftypes]
                     if tv:
                         tv[0].ftypes[0] = 'T'
                     else:
